@@ -236,9 +236,72 @@ fn ki5d_dist_step_friends() {
     dist_step::<true>();
 }
 
+/// Byte-loop models of the two copy primitives: they assert the caller-side precondition KI2 assumes (`offset <= filled`,
+/// `length <= remaining`, range inside the window) and then move the bytes one at a time.  KI2's twins decide that the real
+/// chunked primitives equal exactly this loop under that precondition, so the two compose; the real ones cost 20 GB here.
+pub(crate) fn stub_copy_match_model<'a>(w: &mut Writer<'a>, offset_from_end: usize, length: usize)
+where
+    'a: 'a,
+{
+    assert!(offset_from_end >= 1 && offset_from_end <= w.len(), "copy_match: offset reaches before the start of the output");
+    assert!(length <= w.remaining(), "copy_match: length exceeds the room left in the output buffer");
+    let filled = w.len();
+    let cap = w.capacity();
+    let base = w.next_out().wrapping_sub(filled) as *mut u8;
+    let mut i = 0;
+    while i < length {
+        unsafe { *base.add(filled + i) = *base.add(filled + i - offset_from_end) };
+        i += 1;
+    }
+    *w = unsafe { Writer::new_uninit_raw(base, filled + length, cap) };
+}
+pub(crate) fn stub_efw_model<'a>(w: &mut Writer<'a>, window: &Window<'_>, range: core::ops::Range<usize>)
+where
+    'a: 'a,
+{
+    assert!(range.start <= range.end && range.end <= window.size(), "extend_from_window: range outside the window");
+    let len = range.end - range.start;
+    assert!(len <= w.remaining(), "extend_from_window: length exceeds the room left in the output buffer");
+    let filled = w.len();
+    let cap = w.capacity();
+    let base = w.next_out().wrapping_sub(filled) as *mut u8;
+    let mut i = 0;
+    while i < len {
+        unsafe { *base.add(filled + i) = *window.as_ptr().add(range.start + i) };
+        i += 1;
+    }
+    *w = unsafe { Writer::new_uninit_raw(base, filled + len, cap) };
+}
+
+/// Contract-only versions (no bytes moved): the quick-tier guard harnesses decide *when* a match is rejected and the
+/// length/room accounting; the byte-level LZ77 semantics are the `_step_` harnesses above (thorough) and KI2.
+pub(crate) fn stub_copy_match_contract0<'a>(w: &mut Writer<'a>, offset_from_end: usize, length: usize)
+where
+    'a: 'a,
+{
+    assert!(offset_from_end >= 1 && offset_from_end <= w.len(), "copy_match: offset reaches before the start of the output");
+    assert!(length <= w.remaining(), "copy_match: length exceeds the room left in the output buffer");
+    let filled = w.len();
+    let cap = w.capacity();
+    let base = w.next_out().wrapping_sub(filled) as *mut u8;
+    *w = unsafe { Writer::new_uninit_raw(base, filled + length, cap) };
+}
+pub(crate) fn stub_efw_contract0<'a>(w: &mut Writer<'a>, window: &Window<'_>, range: core::ops::Range<usize>)
+where
+    'a: 'a,
+{
+    assert!(range.start <= range.end && range.end <= window.size(), "extend_from_window: range outside the window");
+    let len = range.end - range.start;
+    assert!(len <= w.remaining(), "extend_from_window: length exceeds the room left in the output buffer");
+    let filled = w.len();
+    let cap = w.capacity();
+    let base = w.next_out().wrapping_sub(filled) as *mut u8;
+    *w = unsafe { Writer::new_uninit_raw(base, filled + len, cap) };
+}
+
 /// One `Match` step (no bits, no input): rejected exactly when the distance reaches before everything available
 /// (output of this call + window); otherwise LZ77 semantics, canaries, partial copies resume.
-fn match_step<const VIA_FRIENDS: bool, const CAP: usize, const MAXLEN: usize>() {
+fn match_step<const VIA_FRIENDS: bool, const CAP: usize, const MAXLEN: usize, const BYTES: bool>() {
     const W: usize = 8;
     let init: [u8; 16] = kani::any();
     let mut out = init;
@@ -254,33 +317,11 @@ fn match_step<const VIA_FRIENDS: bool, const CAP: usize, const MAXLEN: usize>() 
     }
     let mut state = typed_state(&mut win, 0, Mode::Match);
     setup_fixed(&mut state);
-    // window pre-state: either not yet wrapped (next == have < W) or full with any write head
+    // window pre-state: not yet wrapped (next == have < W) or full with any write head
     let have: usize = kani::any();
-    kani::assume(have <= W);
-    // `next` is private to window.rs: reach a (have, next) pair through the real extend()
-    let fill: usize = kani::any();
-    kani::assume(fill <= 2 * W);
-    {
-        let mut ck = 1u32;
-        let mut fold = Crc32Fold::new();
-        let mut done = 0;
-        // feed `fill` bytes one chunk of <= W-1 at a time so that the write head moves without the len >= wsize shortcut
-        while done < fill {
-            let n = if fill - done > W - 1 { W - 1 } else { fill - done };
-            let chunk = [0u8; W];
-            let _ = chunk;
-            // contents are re-established below; only (have, next) matter here
-            state.window.extend(&wcontent[..n], 0, false, &mut ck, &mut fold);
-            done += n;
-        }
-    }
-    let have = state.window.have();
-    let next = state.window.next();
-    let mut k = 0;
-    while k < W {
-        win_set(&mut state, k, wcontent[k]);
-        k += 1;
-    }
+    let next: usize = kani::any();
+    kani::assume((have < W && next == have) || (have == W && next < W));
+    crate::inflate::window::verif_kani::set_ring(&mut state.window, have, next);
     let len: usize = kani::any();
     kani::assume(len >= 1 && len <= MAXLEN);
     let off: usize = kani::any();
@@ -307,7 +348,7 @@ fn match_step<const VIA_FRIENDS: bool, const CAP: usize, const MAXLEN: usize>() 
     if full_at_entry {
         assert!(rc == ReturnCode::Ok && filled == pre && rest == len && matches!(mode, Mode::Match));
     } else {
-        assert!(bad == (off > pre + have));
+        assert!(bad == (off > pre + have), "rejected exactly when the distance reaches before everything available");
         if bad {
             assert!(rc == ReturnCode::DataError && filled == pre);
         } else {
@@ -316,7 +357,7 @@ fn match_step<const VIA_FRIENDS: bool, const CAP: usize, const MAXLEN: usize>() 
             assert!(matches!(mode, Mode::Match) == (rest != 0));
         }
     }
-    let mut i = 0;
+    let mut i = if BYTES { 0 } else { 16 };
     while i < 16 {
         if i < pre || i >= filled {
             assert!(out[i] == init[i]);
@@ -330,16 +371,13 @@ fn match_step<const VIA_FRIENDS: bool, const CAP: usize, const MAXLEN: usize>() 
         }
         i += 1;
     }
-    kani::cover!(!bad && !full_at_entry && off > pre && rest == 0 && next != 0, "copy from the window, wrapped ring");
+    kani::cover!(!bad && !full_at_entry && off > pre && rest == 0 && next != 0 && have == W, "copy from the window, wrapped ring");
     kani::cover!(!bad && off > pre && off < filled, "copy spans window and output");
     kani::cover!(bad);
+    kani::cover!(!bad && !full_at_entry && off == pre + have, "match starts at the oldest byte still available");
     kani::cover!(!bad && rest > 0 && filled > pre, "partial copy, resumes later");
 }
 
-fn win_set(state: &mut State<'_>, k: usize, v: u8) {
-    unsafe { *state.window.as_mut_ptr().add(k) = v };
-}
-
 #[kani::proof]
 #[kani::unwind(20)]
 #[kani::stub(crate::inflate::inftrees::inflate_table, stub_table_unreachable)]
@@ -348,8 +386,10 @@ fn win_set(state: &mut State<'_>, k: usize, v: u8) {
 #[kani::stub(core::panicking::panic_nounwind_fmt, stub_pnf)]
 #[kani::stub(crate::inflate::inflate_fast_help, stub_fast_unreachable)]
 #[kani::stub(crate::inflate::State::len_and_friends, stub_laf_suspends)]
+#[kani::stub(crate::inflate::writer::Writer::copy_match, stub_copy_match_model)]
+#[kani::stub(crate::inflate::writer::Writer::extend_from_window, stub_efw_model)]
 fn ki5d_match_step_dispatch() {
-    match_step::<false, 8, 8>();
+    match_step::<false, 8, 258, true>();
 }
 
 #[kani::proof]
@@ -359,8 +399,10 @@ fn ki5d_match_step_dispatch() {
 #[kani::stub(core::panicking::panic_nounwind, stub_pn)]
 #[kani::stub(core::panicking::panic_nounwind_fmt, stub_pnf)]
 #[kani::stub(crate::inflate::inflate_fast_help, stub_fast_unreachable)]
+#[kani::stub(crate::inflate::writer::Writer::copy_match, stub_copy_match_model)]
+#[kani::stub(crate::inflate::writer::Writer::extend_from_window, stub_efw_model)]
 fn ki5d_match_step_friends() {
-    match_step::<true, 8, 8>();
+    match_step::<true, 8, 258, true>();
 }
 
 #[kani::proof]
@@ -371,8 +413,23 @@ fn ki5d_match_step_friends() {
 #[kani::stub(core::panicking::panic_nounwind_fmt, stub_pnf)]
 #[kani::stub(crate::inflate::inflate_fast_help, stub_fast_unreachable)]
 #[kani::stub(crate::inflate::State::len_and_friends, stub_laf_suspends)]
-fn ki5d_match_step_dispatch_wide() {
-    match_step::<false, 12, 258>();
+#[kani::stub(crate::inflate::writer::Writer::copy_match, stub_copy_match_contract0)]
+#[kani::stub(crate::inflate::writer::Writer::extend_from_window, stub_efw_contract0)]
+fn ki5d_match_guard_dispatch() {
+    match_step::<false, 8, 258, false>();
+}
+
+#[kani::proof]
+#[kani::unwind(20)]
+#[kani::stub(crate::inflate::inftrees::inflate_table, stub_table_unreachable)]
+#[kani::stub(core::fmt::write, stub_fmt_write)]
+#[kani::stub(core::panicking::panic_nounwind, stub_pn)]
+#[kani::stub(core::panicking::panic_nounwind_fmt, stub_pnf)]
+#[kani::stub(crate::inflate::inflate_fast_help, stub_fast_unreachable)]
+#[kani::stub(crate::inflate::writer::Writer::copy_match, stub_copy_match_contract0)]
+#[kani::stub(crate::inflate::writer::Writer::extend_from_window, stub_efw_contract0)]
+fn ki5d_match_guard_friends() {
+    match_step::<true, 8, 258, false>();
 }
 
 /// LENFIX / DISTFIX (the fixed-table constants used by every fixed block) equal RFC 1951 3.2.6:
